@@ -173,3 +173,31 @@ pub fn dummy_store(total_len: usize, fill: &mut dyn FnMut(usize) -> Vec<u8>) -> 
     payload.extend_from_slice(&inner);
     Some(make_box(b"jumb", &payload))
 }
+
+/// Returns a copy of `store` in which every *compressed manifest* (a manifest superbox whose only
+/// content box is `brob` = the brotli stream of the complete uncompressed manifest superbox, as the
+/// SDK writes it) is replaced by the decompressed manifest superbox, so that the walker can look
+/// inside.  Independent of the SDK (uses the `brotli` crate directly).  None if nothing is
+/// compressed or decompression fails.
+pub fn expand_brob(store: &[u8], max_out: usize) -> Option<Vec<u8>> {
+    use std::io::Read;
+    let root = parse_store(store)?;
+    let is_compressed = |m: &JBox| &m.typ == b"jumb" && m.children.iter().any(|c| &c.typ == b"brob");
+    if !root.children.iter().any(is_compressed) {
+        return None;
+    }
+    let mut payload = Vec::new();
+    for c in &root.children {
+        if is_compressed(c) {
+            let b = c.children.iter().find(|x| &x.typ == b"brob")?;
+            let p = &store[b.payload_start()..b.end()];
+            let mut out = Vec::new();
+            let mut d = brotli::Decompressor::new(p, 4096).take(max_out as u64);
+            d.read_to_end(&mut out).ok()?;
+            payload.extend_from_slice(&out);
+        } else {
+            payload.extend_from_slice(&store[c.start..c.end()]);
+        }
+    }
+    Some(make_box(b"jumb", &payload))
+}
